@@ -41,8 +41,8 @@ def run(ctx, pid_mon="C04"):
     for cfg in (["MC_Market", "MC_Market_fix"] if q else ["MC_Market_thorough", "MC_Market_fix_thorough"]):
         rows, cfgs = _m1.explore(ctx, cfg, {"swap"}, timeout=900 if q else 2400)
         total_rows += len(rows)
-        tr = _m1.replay(ctx, rows, cfgs, cfg)
-        judge(tr, "h-model c04 replay (%s)" % cfg)
+        for k, part in enumerate(_m1.batches(rows)):
+            judge(_m1.replay(ctx, part, cfgs, "%s-%d" % (cfg, k)), "h-model c04 replay (%s)" % cfg)
     if not q:
         _m1.simulate(ctx, "MC_Market_sim", 40000)
     # 2. impl -> spec on random configurations / states / sequences
